@@ -347,11 +347,12 @@ def run(repo, rep):
               '; '.join(sorted(set(problems))))
 
     # ---------------------------------------------------------------- B4
-    from ..excmodel import node_raises
+    from ..excmodel import node_raises, folder
+    _fold = folder(repo, 'dulprovider', 'DULServiceProvider')
     for name in PRODUCERS:
         f = pm.method(name)
         rep.analysed(f)
-        fin = pm.paths(name, raises_of=lambda node, cl, st: node_raises(node, lambda e: cl.term(e, st, heap_ext=False)))
+        fin = pm.paths(name, raises_of=lambda node, cl, st: node_raises(node, lambda e: cl.term(e, st, heap_ext=False), _fold))
         problems = []
         for s, how in fin:
             if not how.startswith('ret') and how != 'fall':
